@@ -503,7 +503,13 @@ func genRenamerCases(r *Rng, n int, st *Stats, cf *caseSink) {
 		}
 
 		// (c) AssignNestedScopeSlots per source, (d) MinifyRenamer
-		{
+		func() {
+			defer func() {
+				if e := recover(); e != nil {
+					d := w.describe()
+					st.Fail("renamer-panic", d, fmt.Sprint(e), "no panic in AssignNestedScopeSlots / MinifyRenamer on a scope forest")
+				}
+			}()
 			symbols2 := w.symbolMap()
 			var mods2 []*js_ast.Scope
 			for _, m := range w.modules {
@@ -619,7 +625,7 @@ func genRenamerCases(r *Rng, n int, st *Stats, cf *caseSink) {
 				CZList(stableL), coqReserved(reservedMap2), CZList(fl), useStr(pre), strings.Join(groups, ";"), coqNames(got)))
 			st.Note("minify", symsCoq+CZList(fl)+strings.Join(groups, ";"), len(w.syms) > 3)
 			w.checkMinify(slotOf, usedTop, counted, got, reservedMap2, st)
-		}
+		}()
 	}
 	cf.add("reserved_cases", "list zsym * list zscope * (Z * list name)", "check_reserved", resItems)
 	cf.add("number_cases", "list zsym * (Z * list name) * list Z * list zscope * list name", "check_number", numItems)
